@@ -5,7 +5,7 @@
 //! direct oracle (a plain BTreeMap replay of the operations).
 #![allow(dead_code)]
 use radix_common::prelude::*;
-use radix_engine::track::interface::{CommitableSubstateStore, IOAccess, NodeSubstates, TrackedSubstateInfo};
+use radix_engine::track::interface::{CommitableSubstateStore, IOAccess, NodeSubstates, StoreCommit, TrackedSubstateInfo};
 use radix_engine::track::state_updates::{ReadOnly, TrackedSubstateValue, Write};
 use radix_engine::track::Track;
 use radix_engine_interface::types::IndexedScryptoValue;
@@ -155,6 +155,8 @@ fn canon_ev(alpha: &Alphabet, io: &IOAccess) -> Ev {
 }
 
 pub struct Final {
+    pub commit: Vec<String>, // get_commit_info() just before finalize(), as Coq terms
+    pub commit_raw: Vec<(char, K3, usize, usize)>, // kind I/U/D, key, size, old_size
     pub nodes: Vec<(usize, bool, Vec<(usize, u32, Vec<(usize, String)>)>)>, // node, is_new, [(part, range_read, [(rank, tsv coq)])]
     pub deleted: Vec<(usize, usize)>,
     pub new_nodes: Vec<usize>,
@@ -285,7 +287,33 @@ fn run_op(alpha: &Alphabet, track: &mut Track<InMemorySubstateDatabase>, op: &Op
     }
 }
 
-fn finalize(alpha: &Alphabet, track: Track<InMemorySubstateDatabase>) -> Final {
+fn finalize(alpha: &Alphabet, mut track: Track<InMemorySubstateDatabase>) -> Final {
+    let k3c = |c: &radix_engine::track::interface::CanonicalSubstateKey| {
+        let p = c.partition_number.0 as usize;
+        format!("{} {} {}", node_index(&c.node_id), p, alpha.rank(p, &c.substate_key))
+    };
+    let commit: Vec<String> = track
+        .get_commit_info()
+        .iter()
+        .map(|c| match c {
+            StoreCommit::Insert { canonical_substate_key, size } => format!("CInsert {} {}", k3c(canonical_substate_key), size),
+            StoreCommit::Update { canonical_substate_key, size, old_size } => format!("CUpdate {} {} {}", k3c(canonical_substate_key), size, old_size),
+            StoreCommit::Delete { canonical_substate_key, old_size } => format!("CDelete {} {}", k3c(canonical_substate_key), old_size),
+        })
+        .collect();
+    let k3r = |c: &radix_engine::track::interface::CanonicalSubstateKey| {
+        let p = c.partition_number.0 as usize;
+        (node_index(&c.node_id), p, alpha.rank(p, &c.substate_key))
+    };
+    let commit_raw: Vec<(char, K3, usize, usize)> = track
+        .get_commit_info()
+        .iter()
+        .map(|c| match c {
+            StoreCommit::Insert { canonical_substate_key, size } => ('I', k3r(canonical_substate_key), *size, 0),
+            StoreCommit::Update { canonical_substate_key, size, old_size } => ('U', k3r(canonical_substate_key), *size, *old_size),
+            StoreCommit::Delete { canonical_substate_key, old_size } => ('D', k3r(canonical_substate_key), 0, *old_size),
+        })
+        .collect();
     let (tracked, _db) = track.finalize().expect("finalize");
     let mut nodes = Vec::new();
     for (id, tn) in &tracked.tracked_nodes {
@@ -331,7 +359,7 @@ fn finalize(alpha: &Alphabet, track: Track<InMemorySubstateDatabase>) -> Final {
         }
         updates.push((node_index(id), parts));
     }
-    Final { nodes, deleted, new_nodes, updates, state_updates: su }
+    Final { commit, commit_raw, nodes, deleted, new_nodes, updates, state_updates: su }
 }
 
 // ------------------------------------------------------------------------------------------------
@@ -410,7 +438,7 @@ pub fn final_coq(f: &Final) -> String {
     let su = coq_list(f.updates.iter().map(|(n, parts)| {
         format!("({}, {})", n, coq_list(parts.iter().map(|(p, s)| format!("({}, {})", p, s))))
     }));
-    format!("({}, {}, {}, {})", nodes, deleted, new_nodes, su)
+    format!("({}, {}, {}, {}, {})", coq_list(f.commit.iter().cloned()), nodes, deleted, new_nodes, su)
 }
 pub fn case_coq(base: &BaseDb, ops: &[Op], outs: &[(Res, Vec<Ev>)], fin: &Option<Final>) -> String {
     let db = coq_list(base.iter().map(|((n, p), m)| {
@@ -646,6 +674,37 @@ pub fn oracle(
         let nn: BTreeSet<usize> = f.new_nodes.iter().cloned().collect();
         if nn != new_nodes {
             fail!("", "final: new node set {:?}, expected {:?}", nn, new_nodes);
+        }
+        // get_commit_info: one entry per key whose final value differs from the database, of the right kind and sizes
+        let hazard = |k: &K3| garbage.contains(k);
+        let mut seen: BTreeSet<K3> = BTreeSet::new();
+        for (kind, k, size, old) in &f.commit_raw {
+            if !seen.insert(*k) {
+                fail!("", "commit info lists {:?} twice", k);
+            }
+            if hazard(k) {
+                continue;
+            }
+            let b = base_view.get(k);
+            let v = view.get(k);
+            let ok = match kind {
+                'I' => b.is_none() && v.map(|x| x.1) == Some(*size),
+                'U' => b.map(|x| x.1) == Some(*old) && v.map(|x| x.1) == Some(*size),
+                _ => b.map(|x| x.1) == Some(*old) && v.is_none(),
+            };
+            if !ok {
+                fail!("", "commit info {}{:?} size {} old {} but database holds {:?} and view holds {:?}", kind, k, size, old, b, v);
+            }
+        }
+        for n in 0..NODES {
+            for p in 0..PARTS {
+                for r in 0..KEYS[p % 3] {
+                    let k = (n, p, r);
+                    if !hazard(&k) && base_view.get(&k) != view.get(&k) && !seen.contains(&k) {
+                        fail!("", "commit info misses {:?}: database {:?}, view {:?}", k, base_view.get(&k), view.get(&k));
+                    }
+                }
+            }
         }
         res.final_checked = true;
     }
@@ -1091,6 +1150,11 @@ pub fn run_boundary(alpha: &Alphabet, report: &mut Report, cw: &mut CaseWriter) 
                 }
             }
             if !f.new_nodes.is_empty() { report.count("bf_new_nodes_reported"); }
+            for (kind, k, _, _) in &f.commit_raw {
+                report.count(&format!("bf_commit_{}", kind));
+                let blind = f.nodes.iter().any(|(n, _, parts)| *n == k.0 && parts.iter().any(|(p, _, subs)| *p == k.1 && subs.iter().any(|(r, t)| *r == k.2 && t.starts_with("TWo"))));
+                if blind { report.count(&format!("bf_commit_blind_{}", kind)); }
+            }
         }
         let o = oracle(alpha, &bc.base, &db, used, &outs, &fin);
         if o.stopped_inadmissible.is_some() { report.count("bf_oracle_stopped_inadmissible"); }
@@ -1119,6 +1183,7 @@ pub fn run_boundary(alpha: &Alphabet, report: &mut Report, cw: &mut CaseWriter) 
         "bf_final_TNew", "bf_final_TRoNone", "bf_final_TRoSome", "bf_final_TRExW_Update", "bf_final_TRExW_Delete", "bf_final_TRNexW",
         "bf_final_TWo_Update", "bf_final_TWo_Delete", "bf_final_TGarbage",
         "bf_upd_reset_empty", "bf_upd_reset_with_values", "bf_upd_delete", "bf_upd_set", "bf_new_nodes_reported", "bf_oracle_stopped_inadmissible",
+        "bf_commit_I", "bf_commit_U", "bf_commit_D", "bf_commit_blind_I", "bf_commit_blind_U", "bf_commit_blind_D",
     ] {
         report.floor(k, 1);
     }
